@@ -36,7 +36,9 @@ ISOLATE_CASES = True     # every case starts from a pristine process: verdicts d
 ENGINES = ["E3-explicit-state-history-search", "E4-schedule-exploration"]
 TECHNIQUE = ("explicit-state breadth-first search over interleaved operation histories on several live screen "
              "objects and NumPy's global RNG, each reached state compared bit-for-bit with a reference table "
-             "whose every entry was generated in its own pristine process")
+             "whose every entry was generated in its own pristine process; plus exhaustive single-preemption "
+             "interleaving of pairs of calls at library-line granularity (one call run to completion at every line "
+             "of the other), seed / call-form / result-ownership enumerations")
 RULE = ("case = (family, first operation of the history); from there BFS over the family's whole operation "
         "alphabet to the depth bound, de-duplicated on the canonical state (seeded objects by content, unseeded "
         "objects by kind and age, global RNG state, module globals); non-trivial = transitions whose history "
@@ -45,7 +47,10 @@ ASSUMPTIONS = [
     "unseeded objects draw from OS entropy; their content is abstracted to (kind, rows added) in the state hash - "
     "sound for this property because every executed transition re-checks every seeded object against the table",
     "depth bound per tier; at most one live object per slot",
-    "process-level sources of interference (threads, other processes) are not modelled",
+    "threads: two calls interleaved with ONE preemption at line granularity are explored exhaustively (mc/reentry.py: "
+    "the other call is run to completion at every library line, which is what a second interpreter thread does "
+    "between two lines when the library holds no lock); more preemptions, and preemption inside C code that "
+    "releases the interpreter lock, are not modelled; other processes: forked siblings and fresh interpreters only",
     "small screens (vK 4x4/5x5, Fried 3x3/5x5, FFT 4x4/8x8): the property is about state isolation, not size",
     "'unseeded calls differ' is required in every history, including histories that put NumPy's global generator "
     "into the same state before both calls (the property quantifies over changes to the global state)",
@@ -54,7 +59,8 @@ LEVEL_TEXT = ("Every interleaving (to depth 4 quick / 6 thorough in the main fam
               "families) of constructing/advancing seeded infinite screens, seeded FFT screens, unseeded calls and "
               "global-RNG noise operations is executed on the real code; all seeded artefacts are compared bit for "
               "bit with references generated in pristine processes after every transition, and the global random "
-              "state and the module globals are part of the explicit state.")
+              "state and the module globals are part of the explicit state. Two-call interleavings: all 64 ordered "
+              "pairs of 8 colliding operations x every library line of the first (6 912 schedules).")
 LEVEL_NOTE = ("Trusted: copy.deepcopy snapshots, os.fork isolation, numpy bit comparison. Not covered: histories "
               "deeper than the bound, more than one object per slot, parameters other than the listed ones.")
 
